@@ -360,7 +360,7 @@ def coq_cols(cols):
     return "[" + "; ".join(one(c) for c in cols) + "]"
 
 
-HOOK_PREFIXES = ["verif:translate_wildcards ", "verif:deduplicate_select_items ", "verif:select_item ", "verif:select_items ", "verif:pq-names ", "verif:extract_atomic "]
+HOOK_PREFIXES = ["verif:translate_wildcards ", "verif:deduplicate_select_items ", "verif:select_item ", "verif:select_items ", "verif:pq-names ", "verif:extract_atomic ", "verif:anchor_split ", "verif:split_off_back ", "verif:load_names ", "verif:pipeline_in "]
 _hook_cache = {}
 
 
@@ -621,11 +621,21 @@ def limit_stream(ck, srcs, targets=("sql.sqlite", "sql.duckdb")):
     reqs, ans = hook_events(srcs, targets)
     calls = {}
     for rq, a in zip(reqs, ans):
-        for e in a.get("entries", []):
-            m = e.get("Message") or ""
+        msgs = [e.get("Message") or "" for e in a.get("entries", [])]
+        for i, m in enumerate(msgs):
             if m.startswith("verif:extract_atomic "):
                 d = json.loads(m[len("verif:extract_atomic "):])
-                calls.setdefault(json.dumps([d["output_redirected"], d["select_cols"]]), (d, rq["src"], rq["target"]))
+                # the branch actually taken: the limiting SELECT is built by a call of anchor_split right behind this event, before
+                # the next atomic pipeline is looked at (load_names / split_off_back / pipeline_in)
+                taken = False
+                for m2 in msgs[i + 1:]:
+                    if m2.startswith("verif:anchor_split "):
+                        taken = True
+                        break
+                    if m2.startswith(("verif:load_names ", "verif:split_off_back ", "verif:pipeline_in ", "verif:extract_atomic ")):
+                        break
+                d["taken"] = taken
+                calls.setdefault(json.dumps([d["output_redirected"], d["select_cols"], taken]), (d, rq["src"], rq["target"]))
     keys = sorted(calls)
     ck.coverage["extract_atomic_calls_distinct"] = len(keys)
     if not keys:
@@ -641,9 +651,9 @@ def limit_stream(ck, srcs, targets=("sql.sqlite", "sql.duckdb")):
         d, src, target = calls[k]
         ck.count("limit", k, nontrivial=d["extra"])
         ck.stat("limit", "extra" if d["extra"] else "plain")
-        if v is None or bool(v[0]) != bool(d["extra"]):
+        if v is None or bool(v[0]) != bool(d["extra"]) or bool(v[0]) != d["taken"]:
             ck.disagreement("extract_atomic: the limiting-SELECT decision differs from Model/LimitSelect.has_extra (program %s) [%s]" % (src.replace("\n", " | ")[:200], target),
-                            {"event": d, "model": repr(v), "prql": src, "target": target}, lambda c: None)
+                            {"event": d, "model": repr(v), "limiting_select_built": d["taken"], "prql": src, "target": target}, lambda c: None)
         elif not d["extra"] and d["select_cols"] != d["output_redirected"]:
             ck.stat("limit", "plain-but-select-differs-from-output")
             ck.disagreement("extract_atomic: no limiting SELECT, but the atomic pipeline selects %s where %s was asked for (program %s) [%s]"
